@@ -2,29 +2,33 @@ import Driver.Util
 import HyperModel.Model.Executor
 import HyperModel.Model.ExecutorFine
 /-!
-Driver for C08. Replays the gated-schedule protocol of the Go harness through the coarse
-executor relation: every op becomes one client step (`run`, `finish` of the released task,
-`stop`, `wait`), checked with `isEnabled`, followed by the worker steps (`start`/`skip`)
-that `enabled` offers until none is left (quiescence). Printed after each op: the set of
-running task bodies and the length of the executable channel.
+Driver for C08. Replays the protocol of the Go harness through the FINEST executor relation
+(`Model/ExecutorFine.lean`: one step per critical section / atomic operation), every step
+checked with `isEnabledF`; as long as no lock-hold op was used in a case the same ops are
+also replayed through the coarse relation (`Model/Executor.lean`) and the two states are
+compared (`coarse-mismatch` otherwise).
 
   case <workers>
   run <key>:<perm>…          perm = state.Permissions byte; read-only iff perm = 1
-  rel <r> <fail 0|1>         releases the (r mod #running)-th running task (sorted by id)
-  stop
-  wait
+  rel <r> <fail 0|1> [| o…]  the (r mod #running)-th running body returns; `o…` = the order in
+                             which the real executor sent the newly executable tasks
+  hold <r>                   the harness takes the lock `t.l` of the r-th running task: its
+                             notification section will block (its deregistrations still run)
+  unhold [| o…]              releases that lock (the pending notification section runs)
+  stop | wait
+  free …                     free-running case (oracle only)
 
-`run` is replayed twice: as the atomic `Step.run` of the coarse relation and as the sequence
-`runBegin; runKey…; runEnd` of the finer relation (`Model/ExecutorFine.lean`, maxDependencies
-as in the harness); the two resulting states must show the same observables, otherwise the
-line is answered with `fine-mismatch`.
+Printed after each op: running bodies, channel length, and a dump of the dependency state
+(per task with keys that is not yet executed or still owns a key: counter, executed flag,
+blocked set, readers set; and `nodes`).
 -/
 namespace Driver.C08
 open HyperModel.Executor
 
 structure DState where
-  s : State
-  aborted : Bool
+  fs : FState
+  cs : Option State
+  held : Option Nat
   active : Bool
 
 def setStr (l : List Nat) : String :=
@@ -32,41 +36,85 @@ def setStr (l : List Nat) : String :=
 
 def running (s : State) : List Nat := (List.range s.n).filter (fun j => s.status j == .running)
 
-def obs (s : State) : String := s!"started={setStr (running s)} q={s.queue.length}"
+def dump (s : State) : String :=
+  let owns (j : Nat) : Bool := (List.range 16).any (fun k => s.nodes k == some j)
+  let ts := (List.range s.n).filter (fun j => !(s.keys j).isEmpty && (!executed s j || owns j))
+  let one (j : Nat) : String :=
+    let b := (List.range s.n).filter (fun x => s.blocked j x)
+    let r := (List.range s.n).filter (fun x => s.readers j x)
+    s!"T{j}={s.deps j}/{if executed s j then 1 else 0}/{setStr b}/{setStr r}"
+  let ns := (List.range 16).filterMap (fun k => (s.nodes k).map (fun o => s!"{k}:{o}"))
+  " ".intercalate (ts.map one) ++ " N=" ++ (if ns.isEmpty then "-" else ",".intercalate ns)
 
-/-- apply worker steps until quiescence; `none` if the model refuses a step it listed -/
-def settle : Nat → State → Option State
-  | 0, s => some s
-  | fuel + 1, s =>
-    match (enabled s).head? with
-    | some (.start j) =>
-      if isEnabled s (.start j) then settle fuel (apply s (.start j)) else none
-    | some (.skip j o) =>
-      if isEnabled s (.skip j o) then settle fuel (apply s (.skip j o)) else none
-    | _ => some s
+def obs (s : State) : String := s!"started={setStr (running s)} q={s.queue.length} | {dump s}"
+
+def isEnding (st : Status) : Bool :=
+  match st with
+  | .ending _ => true
+  | _ => false
+
+def stepF (fs : FState) (st : FStep) : Option FState :=
+  if isEnabledF fs st then some (applyF fs st) else none
+
+/-- worker steps until quiescence; the notification section of `held` stays pending -/
+def settle : Nat → Option Nat → FState → Option FState
+  | 0, _, fs => some fs
+  | fuel + 1, held, fs =>
+    let s := fs.s
+    match (List.range s.n).find? (fun j => isEnding (s.status j) && some j != held) with
+    | some j =>
+      match s.reading j with
+      | o :: _ => (stepF fs (.dereg j o)).bind (settle fuel held)
+      | [] => (stepF fs (.notify j (ready s j))).bind (settle fuel held)
+    | none =>
+      match (List.range s.n).find? (fun j => s.status j == .dequeued) with
+      | some j => (stepF fs (.check j)).bind (settle fuel held)
+      | none =>
+        match s.queue.head? with
+        | some j =>
+          if numBusy s < s.workers then (stepF fs (.dequeue j)).bind (settle fuel held) else some fs
+        | none => some fs
+
+def fuelOf (fs : FState) : Nat := 8 * fs.s.n + 16
+
+def deregAll : Nat → Nat → FState → Option FState
+  | 0, _, fs => some fs
+  | fuel + 1, j, fs =>
+    match fs.s.reading j with
+    | o :: _ => (stepF fs (.dereg j o)).bind (deregAll fuel j)
+    | [] => some fs
 
 def fineKeys : Nat → FState → Option FState
   | 0, fs => some fs
-  | n + 1, fs => if isEnabledF fs .runKey then fineKeys n (applyF fs .runKey) else none
+  | n + 1, fs => (stepF fs .runKey).bind (fineKeys n)
 
-/-- `Run` through the finer relation, with no other step interleaved -/
-def runViaFine (s : State) (ks : List KeyReq) : Option State :=
-  let fs : FState := { s := s, reg := none, maxDeps := 1048576 }
-  if !isEnabledF fs (.runBegin ks) then none else
-  match fineKeys ks.length (applyF fs (.runBegin ks)) with
-  | some fs2 => if isEnabledF fs2 .runEnd then some (applyF fs2 .runEnd).s else none
-  | none => none
+/-- coarse relation: worker steps until quiescence -/
+def settleC : Nat → State → Option State
+  | 0, s => some s
+  | fuel + 1, s =>
+    match (enabled s).head? with
+    | some (.start j) => if isEnabled s (.start j) then settleC fuel (apply s (.start j)) else none
+    | some (.skip j o) => if isEnabled s (.skip j o) then settleC fuel (apply s (.skip j o)) else none
+    | _ => some s
+
+def stepC (cs : Option State) (st : Step) : Option (Option State) :=
+  match cs with
+  | none => some none
+  | some s => if isEnabled s st then (settleC (s.n + 3) (apply s st)).map some else none
 
 def sameObs (a b : State) : Bool :=
-  a.n == b.n && a.queue == b.queue &&
+  a.n == b.n && a.queue == b.queue && a.err == b.err && a.waited == b.waited &&
+  (List.range 16).all (fun k => a.nodes k == b.nodes k) &&
   (List.range a.n).all (fun j => a.status j == b.status j && a.deps j == b.deps j &&
-    (List.range a.n).all (fun d => a.blocked d j == b.blocked d j && a.readers d j == b.readers d j))
+    a.keys j == b.keys j &&
+    (List.range a.n).all (fun d => a.blocked d j == b.blocked d j && a.readers d j == b.readers d j &&
+      ((a.reading j).contains d == (b.reading j).contains d)))
 
 def parseKey (w : String) : Option KeyReq :=
   match w.splitOn ":" with
   | [k, p] =>
     match k.toNat?, p.toNat? with
-    | some k, some p => if p < 256 then some { key := k, read := p == 1 } else none
+    | some k, some p => if k < 16 ∧ p < 256 then some { key := k, read := p == 1 } else none
     | _, _ => none
   | _ => none
 
@@ -76,64 +124,125 @@ def errStr : Option Err → String
   | some .stopped => "stopped"
 
 def ran (s : State) : List Nat := (List.range s.n).filter (fun j => s.status j == .done)
+def skippedL (s : State) : List Nat := (List.range s.n).filter (fun j => s.status j == .skipped)
 
-def step (d : DState) (ws : List String) : DState × String :=
+/-- `a b c | x,y` → (["a","b","c"], some [x,y]) -/
+def splitOrder (ws : List String) : List String × Option (List Nat) :=
+  match ws.span (· != "|") with
+  | (pre, []) => (pre, none)
+  | (pre, _ :: rest) =>
+    match rest with
+    | [] => (pre, some [])
+    | [o] => if o == "-" then (pre, some []) else
+        match allSome ((o.splitOn ",").map String.toNat?) with
+        | some l => (pre, some l)
+        | none => (pre, none)
+    | _ => (pre, none)
+
+/-- would `Run(ks)` need the lock that the harness holds? -/
+def needsHeld (s : State) (held : Option Nat) (ks : List KeyReq) : Bool :=
+  match held with
+  | none => false
+  | some h => ks.any fun kr =>
+      match s.nodes kr.key with
+      | some lt => lt == h || (!kr.read && s.readers lt h)
+      | none => false
+
+def finishOp (d : DState) (fs1 : FState) (cs1 : Option State) (pre : String) : DState × String :=
+  match settle (fuelOf fs1 * 4) d.held fs1 with
+  | none => (d, "model-refused")
+  | some fs2 =>
+    match cs1 with
+    | some c => if sameObs c fs2.s then ({ d with fs := fs2, cs := some c }, pre ++ obs fs2.s)
+                else (d, "coarse-mismatch")
+    | none => ({ d with fs := fs2, cs := none }, pre ++ obs fs2.s)
+
+def step (d : DState) (ws0 : List String) : DState × String :=
+  let (ws, ord) := splitOrder ws0
   match ws with
   | ["case", w] =>
     match w.toNat? with
-    | some w => if 1 ≤ w ∧ w ≤ 64 then ({ s := init w, aborted := false, active := true }, "ok") else (d, "bad-op")
+    | some w =>
+      if 1 ≤ w ∧ w ≤ 64 then
+        ({ fs := fInit w (if w % 2 == 0 then 64 else 1048576), cs := some (init w), held := none, active := true }, "ok")
+      else (d, "bad-op")
     | none => (d, "bad-op")
   | "run" :: ks =>
     if !d.active then (d, "bad-op") else
     match allSome (ks.map parseKey) with
     | none => (d, "bad-op")
     | some ks =>
-      if d.aborted then (d, "skip") else
-      if !isEnabled d.s (.run ks) then (d, "not-enabled") else
-      let s1 := apply d.s (.run ks)
-      match runViaFine d.s ks with
-      | none => (d, "fine-refused")
-      | some sf =>
-      if !sameObs s1 sf then (d, "fine-mismatch") else
-      match settle (s1.n + 2) s1 with
-      | some s2 => ({ d with s := s2 }, s!"t={d.s.n} {obs s2}")
+      if !keysNodup ks then (d, "bad-op") else
+      if d.fs.s.waited.isSome then (d, "not-enabled") else
+      if needsHeld d.fs.s d.held ks then (d, "blocked-by-hold") else
+      match (stepF d.fs (.runBegin ks)).bind (fineKeys ks.length) |>.bind (fun f => stepF f .runEnd) with
       | none => (d, "model-refused")
+      | some fs1 =>
+        match stepC d.cs (.run ks) with
+        | none => (d, "coarse-refused")
+        | some cs1 => finishOp d fs1 cs1 s!"t={d.fs.s.n} "
   | ["rel", r, f] =>
     if !d.active then (d, "bad-op") else
     match r.toNat?, f with
     | some r, "0" | some r, "1" =>
-      if d.aborted then (d, "skip") else
-      let rs := running d.s
+      if d.fs.s.waited.isSome then (d, "not-enabled") else
+      let rs := running d.fs.s
       if rs.isEmpty then (d, "none") else
       let j := rs.getD (r % rs.length) 0
       let fail := f == "1"
-      let st := Step.finish j fail (ready d.s j)
-      if !isEnabled d.s st then (d, "not-enabled") else
-      let p := (ready d.s j).length
-      let free := d.s.workers - (rs.length - 1)
-      let s1 := apply d.s st
-      if s1.err.isNone && decide (2 ≤ p) && decide (free - d.s.queue.length < p) then
-        ({ d with s := s1, aborted := true }, s!"rel={j} ambiguous")
-      else
-        match settle (s1.n + 2) s1 with
-        | some s2 => ({ d with s := s2 }, s!"rel={j} {obs s2}")
-        | none => (d, "model-refused")
+      if (match d.held with | some h => fail || (d.fs.s.reading j).contains h | none => false) then
+        (d, "blocked-by-hold") else
+      match (stepF d.fs (.finish j fail)).bind (deregAll (d.fs.s.n + 1) j) with
+      | none => (d, "model-refused")
+      | some fs1 =>
+        if d.held == some j then finishOp d fs1 none s!"rel={j} " else
+        let order := ord.getD (ready fs1.s j)
+        match stepF fs1 (.notify j order) with
+        | none => (d, "order-refused")
+        | some fs2 =>
+          match stepC d.cs (.finish j fail order) with
+          | none => (d, "coarse-refused")
+          | some cs1 => finishOp d fs2 cs1 s!"rel={j} "
     | _, _ => (d, "bad-op")
+  | ["hold", r] =>
+    if !d.active then (d, "bad-op") else
+    match r.toNat? with
+    | some r =>
+      if d.fs.s.waited.isSome then (d, "not-enabled") else
+      let rs := running d.fs.s
+      if rs.isEmpty || d.held.isSome || d.fs.s.err.isSome then (d, "none") else
+      let j := rs.getD (r % rs.length) 0
+      if (d.fs.s.keys j).isEmpty then (d, "none") else
+      ({ d with held := some j, cs := none }, s!"held={j}")
+    | none => (d, "bad-op")
+  | ["unhold"] =>
+    if !d.active then (d, "bad-op") else
+    match d.held with
+    | none => (d, "none")
+    | some j =>
+      let d1 := { d with held := none }
+      if isEnding (d.fs.s.status j) then
+        let order := ord.getD (ready d.fs.s j)
+        match stepF d.fs (.notify j order) with
+        | none => (d, "order-refused")
+        | some fs1 => finishOp d1 fs1 none s!"unheld={j} "
+      else finishOp d1 d.fs none s!"unheld={j} "
   | ["stop"] =>
     if !d.active then (d, "bad-op") else
-    if d.aborted then (d, "skip") else
-    if !isEnabled d.s .stop then (d, "not-enabled") else
-    let s1 := apply d.s .stop
-    match settle (s1.n + 2) s1 with
-    | some s2 => ({ d with s := s2 }, obs s2)
-    | none => (d, "model-refused")
+    if d.fs.s.waited.isSome then (d, "not-enabled") else
+    if d.held.isSome then (d, "blocked-by-hold") else
+    match stepF d.fs .stop, stepC d.cs .stop with
+    | some fs1, some cs1 => finishOp d fs1 cs1 ""
+    | _, _ => (d, "model-refused")
   | ["wait"] =>
     if !d.active then (d, "bad-op") else
-    if d.aborted then (d, "skip") else
-    if d.s.waited.isSome then (d, "not-enabled") else
-    if !isEnabled d.s .wait then (d, "notready") else
-    let s1 := apply d.s .wait
-    ({ d with s := s1 }, s!"wait={errStr s1.err} ran={setStr (ran s1)}")
+    if d.fs.s.waited.isSome then (d, "not-enabled") else
+    if d.held.isSome then (d, "notready") else
+    match stepF d.fs .wait with
+    | none => (d, "notready")
+    | some fs1 =>
+      ({ d with fs := fs1, cs := none },
+        s!"wait={errStr fs1.s.err} ran={setStr (ran fs1.s)} skipped={setStr (skippedL fs1.s)}")
   | ["free", a, b, c, e] =>
     -- free-running case: judged by the Go-side oracle only; nothing schedule dependent is printed
     match a.toNat?, b.toNat?, c.toNat?, e.toNat? with
@@ -143,7 +252,7 @@ def step (d : DState) (ws : List String) : DState × String :=
   | _ => (d, "bad-op")
 
 def machine : Machine :=
-  { σ := DState, init := { s := init 1, aborted := false, active := false }, step := step }
+  { σ := DState, init := { fs := fInit 1 1, cs := none, held := none, active := false }, step := step }
 end Driver.C08
 
 def main : IO Unit := Driver.run Driver.C08.machine
